@@ -190,19 +190,24 @@ def run_unit(unit, repo, scratch, tier='quick', seed=0, rlimit=None):
             return linemap[line - 1]
         return None
 
-    def label_near(line):
-        """label of the spec line at `line`, or of the nearest labelled vspec line above it that
-        belongs to the same spliced block."""
-        j = line
+    def label_near(line, line_end=None):
+        """label of the failed clause: a `// #label` on any line of the clause's span (a multi-line
+        clause carries its label on its last line), else on the line itself or - for a continuation
+        line - on the nearest labelled line above within the same clause."""
+        for j in range(line_end or line, line - 1, -1):
+            o = origin_of(j)
+            if o and o[0] == 'vspec' and o[3]:
+                return o[3]
+        j = line - 1
         while j >= 1:
             o = origin_of(j)
             if not o or o[0] != 'vspec':
                 return None
+            # stop climbing when the line above ends a different clause
+            if gen_lines[j - 1].rstrip().split('//')[0].rstrip().endswith(','):
+                return None
             if o[3]:
                 return o[3]
-            # stop climbing when the clause above ends with ',' (a different clause)
-            if j < line and gen_lines[j - 1].rstrip().split('//')[0].rstrip().endswith(','):
-                return None
             j -= 1
         return None
 
@@ -248,7 +253,8 @@ def run_unit(unit, repo, scratch, tier='quick', seed=0, rlimit=None):
             fname = fn[0] if fn else '?'
             clause_line = clause_span['line_start'] if clause_span else pline
             clause_text = gen_lines[clause_line - 1].strip() if 0 < clause_line <= len(gen_lines) else ''
-            lab = label_near(clause_line)
+            clause_end = clause_span['line_end'] if clause_span else (prim['line_end'] if prim else pline)
+            lab = label_near(clause_line, clause_end)
             site_text = gen_lines[pline - 1].strip() if 0 < pline <= len(gen_lines) else ''
             if not lab:
                 lab = slug(clause_text if clause_span else site_text)
